@@ -705,6 +705,8 @@ class Peer:
         # Timing instrumentation for peer message loop
         peer_loop_timer = LoopTimer(f'peer_main_{self.id()}', warn_threshold_ms=50)
 
+        pending_read: asyncio.Future[Message] | None = None
+
         try:
             while not self._teardown:
                 peer_loop_timer.start()
@@ -717,10 +719,16 @@ class Peer:
                     self._neighbor.previous = None
                     self._neighbor = None
 
-                # Read message with timeout
-                try:
-                    message = await asyncio.wait_for(self.proto.read_message(), timeout=0.1)
-                except asyncio.TimeoutError:
+                # Read message with timeout. The read is kept across iterations instead of being cancelled:
+                # cancelling it half way through a message (asyncio.wait_for) threw away the bytes already
+                # taken from the socket and the framing of the stream was lost
+                if pending_read is None:
+                    pending_read = asyncio.ensure_future(self.proto.read_message())
+                done, _ = await asyncio.wait({pending_read}, timeout=0.1)
+                if done:
+                    finished_read, pending_read = pending_read, None
+                    message = finished_read.result()
+                else:
                     message = _NOP
                     await asyncio.sleep(0)
 
@@ -769,6 +777,9 @@ class Peer:
         except Exception as exc:
             log.error(lazyexc('async.mainloop.exception error={exc}', exc), self.id())
             raise
+        finally:
+            if pending_read is not None:
+                pending_read.cancel()
 
         # Graceful restart handling
         log.debug(
